@@ -147,6 +147,20 @@ CHECKS.update({
     ),
 })
 
+CHECKS.update({
+    "C06": (
+        "exploration",
+        "enumerator",
+        "exhaustive enumeration of device answers x client configurations (6 majors x 4 minors x 3 names x expected x login x password x "
+        "verdict x 6 response orders/chunkings, plaintext and Noise with 4 hello-frame names) through the real APIClient.connect(), "
+        "compared with a reference accept predicate; error class and cleanup obligations checked for every rejection",
+        "The accept/reject boundary is finite and enumerated completely; each run owns the loop so 'stop callback never invoked, also not "
+        "later' is checked by draining and advancing virtual time.",
+        BASE,
+        "DESIGN.md §3 C06",
+    ),
+})
+
 NOT_APPLICABLE: dict[str, str] = {}
 
 
